@@ -779,3 +779,9 @@ func (r *Reach) Values(v ssa.Value) []ssa.Value {
 	walk(v, 0)
 	return out
 }
+
+// EvalAlt evaluates result k of a return alternative: the abstract value on the explored paths, refined by the branch
+// outcomes of the arm the alternative comes from.
+func (r *Reach) EvalAlt(a RetAlt, k int) Abs {
+	return r.evalGuarded(a.Results[k], append(append([]Guard{}, a.Guards...), Guards(a.Ret)...))
+}
